@@ -24,6 +24,7 @@ pub mod c20;
 pub mod model;
 pub mod common;
 pub mod aftermath;
+pub mod context;
 
 pub fn build(id: &str, tier: &str) -> Option<Check> {
     let quick = crate::engine::tier_is_quick(tier);
